@@ -344,6 +344,81 @@ func runC08(r *Run) {
 				}
 			}
 		}
+		// the same filter moved into a boolean helper asked with (path, prefix)
+		for _, c := range callsIn(f, false) {
+			if hp || !mr.Loop[c.Block()] {
+				continue
+			}
+			g := boolHelperCall(c)
+			if g == nil {
+				continue
+			}
+			pk := paramFor(g, c, mr.Key)
+			if pk == nil {
+				continue
+			}
+			cutG := map[edge]bool{}
+			var hpCalls []ssa.Value
+			for _, hc := range callsMatching(g, false, nameIs("strings.HasPrefix")) {
+				if hc.Common.Args[1] != ssa.Value(pk) {
+					continue
+				}
+				pp, isParam := hc.Common.Args[0].(*ssa.Parameter)
+				if !isParam {
+					continue
+				}
+				// the path argument must be loop-invariant at the call
+				var pathArg ssa.Value
+				for i, gp := range g.Params {
+					if gp == pp && i < len(c.Common.Args) {
+						pathArg = c.Common.Args[i]
+					}
+				}
+				inv := false
+				if in, ok := pathArg.(ssa.Instruction); ok && !mr.Loop[in.Block()] {
+					inv = true
+				} else if xc, ok := pathArg.(*ssa.Call); ok && xc.Call.IsInvoke() && xc.Call.Method.Name() == "Path" && len(xc.Call.Args) == 1 && asConst(xc.Call.Args[0]) != nil {
+					inv = true
+				} else if _, ok := pathArg.(*ssa.Parameter); ok {
+					inv = true
+				}
+				if !inv {
+					continue
+				}
+				hpCalls = append(hpCalls, hc.Value())
+				for _, br := range ifsOnValue(g, hc.Value()) {
+					if sl, ok := br.truthSlot(true); ok {
+						cutG[edge{br.If.Block(), sl}] = true
+					}
+				}
+			}
+			if len(hpCalls) == 0 {
+				continue
+			}
+			isHP := func(v ssa.Value) bool {
+				for _, h := range hpCalls {
+					if v == h {
+						return true
+					}
+				}
+				return false
+			}
+			if !trueOnlyBehind(g, cutG, isHP) {
+				continue
+			}
+			for _, br := range ifsOnValue(f, c.Value()) {
+				if sl, ok := br.truthSlot(true); ok {
+					tgt := br.If.Block().Succs[sl]
+					all := len(updBlocks) > 0
+					for _, ub := range updBlocks {
+						if !dom(tgt, ub) {
+							all = false
+						}
+					}
+					hp = hp || all
+				}
+			}
+		}
 		r.check(hp, "ErrorHandler:candidates-are-prefixes-of-path", r.pos(mr.Next), "every update is dominated by HasPrefix(path, prefix) with a loop-invariant path", "updates are not restricted to prefixes of the request path")
 	})
 
@@ -354,40 +429,82 @@ func runC08(r *Run) {
 		mr := mrs[0]
 		// edges on which a segment boundary is established:
 		//  (1) path[len(prefix)] == '/'   (2) len(path) <= len(prefix) (with HasPrefix: equal)   (3) the prefix itself ends in '/'
-		cut := map[edge]bool{}
-		kind1 := 0
-		for _, br := range branchesIn(f) {
-			if !mr.Loop[br.If.Block()] {
-				continue
-			}
-			if n, ok := constInt(br.Info.Const); ok && n == '/' {
-				if _, ok := stripValue(br.Info.Root).(*ssa.Index); ok {
-					if s, ok := br.slotFor(token.EQL); ok {
-						cut[edge{br.If.Block(), s}] = true
-						if stripValue(br.Info.Root).(*ssa.Index).X != mr.Key {
-							kind1++
-						}
-					}
-				}
-				continue
-			}
-			if br.Info.Other != nil {
-				a, b := br.Info.Root, br.Info.Other
-				op := br.Info.Op
-				aKey, bKey := isLenOf(a, mr.Key), isLenOf(b, mr.Key)
-				aLen := func(v ssa.Value) bool { c, ok := v.(*ssa.Call); return ok && calleeName(&c.Call) == "builtin:len" }
-				if bKey && aLen(a) && !aKey {
-					// len(path) OP len(prefix)
-				} else if aKey && aLen(b) && !bKey {
-					op = flipOp(op) // len(prefix) OP len(path)  ≡  len(path) flip(OP) len(prefix)
-				} else {
+		boundaryEdges := func(fn *ssa.Function, key ssa.Value, inScope func(*ssa.BasicBlock) bool) (map[edge]bool, int) {
+			cut := map[edge]bool{}
+			kind1 := 0
+			for _, br := range branchesInOne(fn) {
+				if !inScope(br.If.Block()) {
 					continue
 				}
-				switch op {
-				case token.LEQ, token.EQL, token.LSS:
-					cut[edge{br.If.Block(), br.slotWhenRel(true)}] = true
-				case token.GTR, token.NEQ, token.GEQ:
-					cut[edge{br.If.Block(), br.slotWhenRel(false)}] = true
+				if n, ok := constInt(br.Info.Const); ok && n == '/' {
+					if _, ok := stripValue(br.Info.Root).(*ssa.Index); ok {
+						if s, ok := br.slotFor(token.EQL); ok {
+							cut[edge{br.If.Block(), s}] = true
+							if stripValue(br.Info.Root).(*ssa.Index).X != key {
+								kind1++
+							}
+						}
+					}
+					continue
+				}
+				if br.Info.Other != nil {
+					a, b := br.Info.Root, br.Info.Other
+					op := br.Info.Op
+					aKey, bKey := isLenOf(a, key), isLenOf(b, key)
+					aLen := func(v ssa.Value) bool { c, ok := v.(*ssa.Call); return ok && calleeName(&c.Call) == "builtin:len" }
+					if bKey && aLen(a) && !aKey {
+						// len(path) OP len(prefix)
+					} else if aKey && aLen(b) && !bKey {
+						op = flipOp(op) // len(prefix) OP len(path)  ≡  len(path) flip(OP) len(prefix)
+					} else {
+						continue
+					}
+					switch op {
+					case token.LEQ, token.EQL, token.LSS:
+						cut[edge{br.If.Block(), br.slotWhenRel(true)}] = true
+					case token.GTR, token.NEQ, token.GEQ:
+						cut[edge{br.If.Block(), br.slotWhenRel(false)}] = true
+					}
+				}
+			}
+			return cut, kind1
+		}
+		cut, kind1 := boundaryEdges(f, mr.Key, func(b *ssa.BasicBlock) bool { return mr.Loop[b] })
+		// a boolean helper that answers true only on a boundary: its true edge is a boundary edge
+		for _, c := range callsIn(f, false) {
+			if !mr.Loop[c.Block()] {
+				continue
+			}
+			g := boolHelperCall(c)
+			if g == nil {
+				continue
+			}
+			pk := paramFor(g, c, mr.Key)
+			if pk == nil {
+				continue
+			}
+			cutG, k1 := boundaryEdges(g, pk, func(*ssa.BasicBlock) bool { return true })
+			isBoundaryPred := func(v ssa.Value) bool {
+				bo, ok := v.(*ssa.BinOp)
+				if !ok || bo.Op != token.EQL {
+					return false
+				}
+				n, isC := constInt(asConst(bo.Y))
+				_, isIdx := stripValue(bo.X).(*ssa.Index)
+				if isC && n == '/' && isIdx {
+					if stripValue(bo.X).(*ssa.Index).X != ssa.Value(pk) {
+						k1++
+					}
+					return true
+				}
+				return false
+			}
+			if trueOnlyBehind(g, cutG, isBoundaryPred) && k1 > 0 {
+				kind1 += k1
+				for _, br := range ifsOnValue(f, c.Value()) {
+					if sl, ok := br.truthSlot(true); ok {
+						cut[edge{br.If.Block(), sl}] = true
+					}
 				}
 			}
 		}
